@@ -79,3 +79,36 @@ CLAIMED['C44'] = dict(
     note="Trusted: CBMC's model of __builtin_ctzll/__builtin_popcountll, the bsr axiom, malloc axiom (fresh, 16-aligned, no failure, no address wrap). alignedMalloc/alignedFree are "
          "verified in integer address space with a ghost block and ghost recovery word (pointer casts rewritten by rule R19).",
     technique="CBMC DFCC function contracts (cadical), complete unwinding of constant-bounded loops, axiom stub for inline asm, native exhaustive stand-in")
+
+CLAIMED['C12'] = dict(
+    category='proof',
+    text="The set of ranges the code can hand to the loop body is a partition of [start,end): contracts on the extracted static mapper and its derivation (C17 units), "
+         "on computeGranularity / adjustChunkSizing / calcChunkSize (incl. the do-while loop with invariant and decreases clause), on the chunk->range rule of both dynamic "
+         "workers, on the stripe partition loop of initStripeState (loop invariant with a ghost stripe index), on alignDownStripe and on the claim rule of stripeClaim; "
+         "property-level lemma functions derive adjacency / first / last / non-emptiness from those contracts only. All inputs, no bound, per index type "
+         "(quick: int8, int32, uint64; thorough: all eight).",
+    note="Decides the arithmetic core only: that every scheduled worker runs exactly once and has returned at wait() is C01/C02 (assumed); distinctness of claim indices is the "
+         "atomic-RMW axiom. Back end intwp (Z-VCs, z3-new/cvc5) as for C17. One known finding is reported, not hidden: for 64-bit index types a stripe ending within ~2^20 chunks "
+         "of the type maximum lets the claim cursor wrap (native: kAdaptive over [INT64_MAX-1000, INT64_MAX) hangs); the residual obligation with that input class excluded is "
+         "discharged on every run. Assumes at most 2^20 claims hit a stripe after it is exhausted; range size <= INT64_MAX (dynamic path: <= 2^62).",
+    technique="function + loop contracts, lemma functions over contracts, ghost indices; VC generation over Int with exact wrap semantics; SMT")
+
+CLAIMED['C13'] = dict(
+    category='proof',
+    text="For every start, size, index type and g: computeGranularity's trimmed range has size % g == 0 and the tail is < g and ends at the range end; staticChunkSizeGranular / "
+         "the static derivation yield chunk sizes that are multiples of g; calcChunkSize's adaptive chunk is a multiple of g; initStripeState's stripe boundaries are multiples of g "
+         "from start (loop invariant); lemma functions with explicit divisibility witnesses conclude that every static chunk, dynamic chunk and stripe claim is a multiple of g.",
+    note="Same machinery and trusted base as C12. g in [1,64] for the stripe units. Who runs the tail and when is C48/C14. The unaligned-start defect this check found on the pinned "
+         "tree was repaired (fix: commit 198b182).",
+    technique="function + loop contracts, witness-style lemma functions; VC generation over Int; SMT")
+
+CLAIMED['C21'] = dict(
+    category='proof',
+    text="Local protocol obligations of the futex event, for every value of the word and every n, by CBMC contracts on the extracted bodies of Latch::count_down/arrive_and_wait/"
+         "try_wait/wait and CompletionEventImpl::notify/wait (Linux variant): the call that moves the word to the completed value stores with release and then issues FUTEX_WAKE(all); "
+         "a waiter parks only with the value it just loaded, never the completed value; wait returns only after an acquire load of the completed value; count_down leaves "
+         "count - n and notifies exactly when it reached zero. With the futex axiom this gives no lost wake-up and no early return.",
+    note="Atomics are sequentially consistent (A-SC). The composition of the three obligations into the property is the standard futex-event argument and is not machine-checked; "
+         "termination of wait is not proved (liveness rests on the wake obligation + kernel axiom). macOS/Windows variants not covered. The two count_down defects this check found "
+         "on the pinned tree (lost wake for n>=2, early release for n=0) were repaired (fix: commit b17b318).",
+    technique="CBMC DFCC function + loop contracts with ghost futex/atomic stubs (local protocol obligations)")
